@@ -82,7 +82,7 @@ ComposeExpand(p, sh4) ==
   UNION {LET bld == TBuilder(40, ops) IN          \* (one syntactic reference: TLC's start-up cost grows with each)
          {Case("Sprintf", f, <<bld>>, <<>>) : f \in {Fv, Fs, F5q, Fd, Fm8x}}
               \cup {Case("Sprint", <<>>, <<bld>>, <<>>), Case("Sprintf", Fv, <<TSlice(30, <<bld, TRStr(2, r)>>)>>, <<>>),
-                    Case("Sprintf", Fv \o <<32>> \o StartM \o <<32>> \o Fs, <<bld, TStr(9, P(9))>>, <<>>),      \* a marker in the literal after it
+                    Case("Sprintf", Fv \o <<32>> \o StartM \o <<32>> \o Fs, <<bld, TStr(12, P(12))>>, <<>>),    \* a marker in the literal after it
                     Case("Sprintf", Fv, <<TUnsafe(41, bld)>>, <<>>), Case("Sprintf", Fs, <<TSafe(41, bld)>>, <<>>)}
               : ops \in BuilderOps(p)})
 
